@@ -100,6 +100,33 @@ func httpProtoSet(outreq *bfe_http.Request) {
 	outreq.Close = false
 }
 
+// connectionHeaderRemove removes the headers the client listed in its
+// "Connection" header, which are hop-by-hop headers as well (RFC 7230,
+// section 6.1). It runs before any module sees the request, so that a header
+// set by bfe itself (e.g. X-Real-Ip, X-Forwarded-For) is never dropped because
+// the client named it. The fixed hop-by-hop headers are left to
+// hopByHopHeaderRemove(), some of them are still needed (e.g. Upgrade).
+func connectionHeaderRemove(req *bfe_http.Request) {
+	for _, f := range req.Header["Connection"] {
+		for _, h := range strings.Split(f, ",") {
+			h = bfe_http.CanonicalHeaderKey(strings.TrimSpace(h))
+			if h == "" || isHopHeader(h) {
+				continue
+			}
+			req.Header.Del(h)
+		}
+	}
+}
+
+func isHopHeader(key string) bool {
+	for _, h := range bfe_basic.HopHeaders {
+		if h == key {
+			return true
+		}
+	}
+	return false
+}
+
 // hopByHopHeaderRemove remove hop-by-hop headers.
 func hopByHopHeaderRemove(outreq, req *bfe_http.Request) {
 	// Remove hop-by-hop headers to the backend.  Especially
@@ -108,22 +135,6 @@ func hopByHopHeaderRemove(outreq, req *bfe_http.Request) {
 	// is modifying the same underlying map from req (shallow
 	// copied above) so we only copy it if necessary.
 	copiedHeaders := false
-
-	// Remove headers listed in the "Connection" header, which are also
-	// hop-by-hop headers (RFC 7230, section 6.1).
-	for _, f := range outreq.Header["Connection"] {
-		for _, h := range strings.Split(f, ",") {
-			if h = strings.TrimSpace(h); h == "" || outreq.Header.Get(h) == "" {
-				continue
-			}
-			if !copiedHeaders {
-				outreq.Header = make(bfe_http.Header, len(req.Header))
-				bfe_http.CopyHeader(outreq.Header, req.Header)
-				copiedHeaders = true
-			}
-			outreq.Header.Del(h)
-		}
-	}
 
 	for _, h := range bfe_basic.HopHeaders {
 		hv := outreq.Header.Get(h)
@@ -609,6 +620,9 @@ func (p *ReverseProxy) ServeHTTP(rw bfe_http.ResponseWriter, basicReq *bfe_basic
 
 	// set clientip of original user for request
 	setClientAddr(basicReq)
+
+	// remove headers named by the Connection header of the client
+	connectionHeaderRemove(req)
 
 	// Callback for HandleBeforeLocation
 	hl = srv.CallBacks.GetHandlerList(bfe_module.HandleBeforeLocation)
